@@ -84,7 +84,7 @@ def run_case(rs, ctx):
             cfg["np"] = {"kind": "tree", "params": {}, "default": True}  # NeighborhoodPolicy.TreeBandit(): shared default dict
         elif mode == 1:
             cfg["np"] = {"kind": "tree", "params": {"max_depth": 1}}  # tie-rich splits: random_state matters
-    nf = 2
+    nf = 3 if l == "lints" else 2
     sh = gen.Shadow(cfg, nf)
     ops = gen.gen_ops(rs, cfg, sh, 1, ["fit"], train_rows=(6, 16)) + gen.gen_ops(
         rs, cfg, sh, int(rs.integers(5, 10)),
